@@ -287,10 +287,19 @@ def run_compute(case, **kw):
         for name in path[:-1]:
             obj = getattr(obj, name)
         setattr(obj, path[-1], value)
+    if case.get("held"):
+        # a scan: the process keeps ONE configuration object and edits it into the configuration of the next run
+        if case["held"] in _HELD:
+            _assign(_HELD[case["held"]], conf, case["held"].endswith("leaf"))
+            conf = _HELD[case["held"]]
+        _HELD[case["held"]] = conf
     np.random.seed(case["seed"])
     with dask.config.set(scheduler=case.get("scheduler", "synchronous")), quiet():
         tab = compute(conf, verbose=False, **kw)
     return conf, tab
+
+
+_HELD = {}
 
 
 def body_tables(case):
